@@ -109,6 +109,8 @@ def ast_paths(ast, out=None):
     if out is None:
         out = []
     t = ast[0]
+    if t in ("lit", "nplit"):
+        return out
     if t == "ref":
         out.append(ast[1])
         for st in ast[1][1:]:
@@ -132,7 +134,7 @@ def ast_paths(ast, out=None):
 
 def has_ref(ast):
     t = ast[0]
-    if t == "lit":
+    if t in ("lit", "nplit"):
         return False
     if t in ("ref", "call"):
         return True
@@ -150,7 +152,7 @@ def decl_deps(ast):
 
 def ast_size(ast):
     t = ast[0]
-    if t in ("lit", "ref"):
+    if t in ("lit", "ref", "nplit"):
         return 1
     if t == "bin":
         return 1 + ast_size(ast[2]) + ast_size(ast[3])
@@ -398,11 +400,17 @@ class Model:
         t = ast[0]
         if t == "lit":
             return ast[1]
+        if t == "nplit":
+            import numpy as np
+            return np.float64(ast[1])       # a numpy scalar used as a literal (e.g. a weight taken from an array)
         if t == "ref":
             return get(ast[1])
         if t == "bin":
             a = self._ev(ast[2], get)
             b = self._ev(ast[3], get)
+            if (isinstance(a, tuple) or isinstance(b, tuple)) and (type(a).__module__ == "numpy" or type(b).__module__ == "numpy"):
+                # python refuses tuple (op) number; numpy would broadcast it into an array: kept out of the workloads
+                raise TypeError("model: sequence combined with a numpy scalar")
             return (BINOPS if deferred else PYOPS)[ast[1]](a, b)
         if t == "un":
             return UNOPS[ast[1]](self._ev(ast[2], get))
@@ -604,6 +612,9 @@ def _apply(m, op):
                 raise ModelReject("python raises: %r" % (e,))
             return _apply(m, ("setv", path, v))
         cur = m.val[path]
+        if type(cur).__module__ == "numpy":
+            # value (op)= expression with a numpy scalar as the old value: numpy, standing on the left, owns the operator
+            raise ModelReject("numpy scalar on the left of a reference")
         if isinstance(cur, float) and (cur != cur or cur in (float("inf"), float("-inf"))):
             # the old value becomes a literal of the new expression; C11 quantifies over finite constants only
             raise ModelReject("non-finite value would become a literal")
